@@ -49,14 +49,14 @@ ID = "C11"
 READY = True
 ORACLE = "c11"
 HARNESS_BIN = "c11"
-NCASES = {"quick": 2600, "thorough": 60000}
+NCASES = {"quick": 2400, "thorough": 60000}
 CASE_TIMEOUT = {"quick": 120, "thorough": 300}
 MODES = ["Zero", "Away", "Up", "Down", "HalfEven", "HalfAway"]
 BASES = [2, 2, 3, 10, 10, 16, 36]
 # the checker relies on CoqInterval: exactly the four standard-library axioms of the classical reals
 EXTRA_AXIOMS = ()
 
-LEVEL_TEXT = ("Coq theorems (coq/props/C11.v, 55 pinned). (1) Soundness of the certified checkers check_exp / check_expm1 / check_ln / "
+LEVEL_TEXT = ("Coq theorems (coq/props/C11.v, 86 pinned). (1) Soundness of the certified checkers check_exp / check_expm1 / check_ln / "
               "check_ln1p / check_powi / check_powf for ALL inputs and all working precisions, Newton schedules and exponent guesses: a "
               "verdict VAccept proves r = t or B^E <= |t| and |r - t| < B^(E-p+1) for the true real value t (exp x, exp x - 1, ln x, "
               "ln(1+x), x^n, x^y as real numbers) and r = t if the answer was flagged Exact; VReject proves |t| < B^(E+1) and "
@@ -65,40 +65,73 @@ LEVEL_TEXT = ("Coq theorems (coq/props/C11.v, 55 pinned). (1) Soundness of the c
               "path, exp_internal with argument reduction, Maclaurin series, sub_ulp stop criterion and repeated powering, ln_internal "
               "with scaling, atanh series and recombination, iacoth / ln2 / ln10 / ln_base, exp_m1, ln_1p, powf; every intermediate "
               "operation is the C03 model of the float layer; the guard-digit and working-precision formulas and the Reverse mode table "
-              "are REGENERATED from exp.rs / log.rs / round.rs on every run). (3) For Context::powi in the two nearest modes, EVERY base, "
-              "precision p >= 4 (or base >= 5) and EVERY integer exponent, every operand of at most 2p digits: the as-is result is "
-              "within one ulp (in the binade of the true value) of x^n and is flagged Exact only if exact "
-              "(C11_powi_asis_nearest_every_exponent; positive exponents already for base >= 3 or p >= 4, negative ones for p >= 2 or "
-              "base >= 5): relative error (1 +- u)^(2n-3) of the left-to-right powering, the guard condition "
-              "(2n-3)(2B^p+1) <= 2B^(wp-1) proved for the regenerated formula bit_len n + bit_len p, the binade-crossing case of the "
-              "last rounding, the rounded inverse. In EVERY mode a powi result flagged Exact is x^n exactly. (4) The as-is models refine "
-              "the entry logic (unlimited precision panics - powi iff the exponent is negative -, domain panics, Exact shortcuts return "
-              "the true value) and flag nothing Exact outside the shortcuts (exp / ln: never; powf: only 1^y = 1), for every f32 "
-              "estimate layer. (5) Termination: FBig::sub_ulp is positive and at least |sum| B^-(2P+2) for every digit estimate; loops "
-              "of the shape of the three series loops whose operations ROUND (relative error <= 1/16) stop within "
-              "series_fuel B P ~ (2P+2) log2 B + 6 iterations. (6) Open finding in the directed modes: soundness of the as-is accuracy "
-              "check (< 2 ulps) and four machine-checked refutations. Every implementation answer of the run is decided by the extracted "
-              "checker AND compared bit for bit with the extracted as-is model.")
-LEVEL_NOTE = ("PARTIAL: for exp, exp_m1, ln, ln_1p, powf that the heuristic guard digits suffice for ALL precisions and arguments is NOT "
-              "proved (their series code is now modelled faithfully and compared bit for bit, but the accuracy of each answer is still "
-              "decided per generated instance by the certified checker); for powi the one-ulp theorem leaves out base 2 with p <= 3 "
-              "(base 3, 4 with p = 1 for negative exponents) - exhaustive small searches found no violation there - and operands longer "
-              "than 2p digits. Termination is proved for loops with abstract rounding operations; that the Z-level loops of ElemAsis.v are "
-              "instances (rounding contract of FBig addition for operands of p+1 digits) is not (C11_series_fuel_partial). Undecided "
-              "instances (results exactly one ulp from an exactly representable x^y with fractional y) are counted and reported, never "
-              "passed. In the directed modes errors between 1 and 2 ulps are the open finding directed_faithful. The f32 estimate layer "
-              "(libm log2f, IEEE single arithmetic) is abstract in Coq (theorems hold for every instance) and instantiated in the OCaml "
-              "driver (std feature variant; a wrong instance can only lower the fidelity statistic, never change a verdict). Trusted: Coq "
-              "kernel, CoqInterval/Flocq/Coquelicot, extraction (+FastZ.v, + one stub for sig_forall_dec), zarith, harness.")
+              "are REGENERATED from exp.rs / log.rs / round.rs on every run). (3) Context::powi, two nearest modes, as a THEOREM about "
+              "the as-is model (C11_powi_asis_nearest_all): EVERY base >= 2, EVERY precision p >= 1, EVERY integer exponent, every "
+              "operand of at most 2p digits, except base 2 at one bit with a negative exponent: within one ulp (in the binade of the "
+              "true value) of x^n, flagged Exact only if exact. Round 4: the working value of the left-to-right powering is "
+              "x^n (1 +- u)^(n-1) (one rounding per multiplication, n-1 multiplications; round 3 counted 2n-3), the guard condition "
+              "(n-1)(2B^p+1) <= 2B^(wp-1) is proved for the regenerated formula bit_len n + bit_len p for every base at p >= 2 and "
+              "base >= 3 at p = 1; base 2 at one bit by a separate argument (one-bit results are powers of two, both neighbours of a "
+              "non-power are accepted, theta in (3/4, 4/3) suffices); negative exponents at one digit for every base >= 3 with sharper "
+              "constants (33/14 w instead of 200/47 w); binade-crossing case of the last rounding, rounded inverse as in round 3. "
+              "In EVERY mode a powi result flagged Exact is x^n "
+"exactly unless the operand is longer than twice the working precision (open finding powi_overlong_operand, refuted "
+              "by C11_powi_overlong_refuted, truthful outside the class: C11_powi_exact_flag_outside_overlong). (4) exp, scaled branch, "
+              "layer by layer over the reals: (a) guard digits: the regenerated pow_guard_digits contain the n = 2^(bit_len p / 2) "
+              "digits consumed by the final powering for EVERY p and B (C11_exp_pow_guard_covers_powering, "
+              "C11_exp_scaled_work_precision_condition: wp >= p + n + series guard + magnitude digits; the formula before the repair "
+              "of finding exp_pow_guard_sqrt is refuted from 2048 digits on); (b) series: every state reachable by a loop of the shape "
+              "of the Maclaurin loop whose operations round with relative error <= u satisfies pow_k = rho^k (1+-u)^(k-1) and "
+              "sum_k = T_k(rho) (1+-u)^(k+1) (C11_exp_series_partial_sum_error), T_k <= exp rho <= T_k + 2 rho^(k+1)/(k+1)! for "
+              "0 <= rho <= 1/2 (C11_exp_series_tail, from the series definition of exp), together "
+              "|sum_K - exp rho| (1 - (K+1)u) <= exp rho (K+1) u + 2 thr when the loop stops on the threshold thr "
+              "(C11_exp_series_error); (c) the Z-level operations of the model are instances in the nearest modes: fb_mul and fb_div "
+              "have relative error <= 1/(2B^(P-1)) for ANY operand lengths, FBig::from(k!) and r >> n are exact, div_rem_euclid gives "
+              "x = q y + r0 EXACTLY with the remainder rounded once, one iteration of ElemAsis.exp_series_loop maps a trace state to a "
+              "trace state given the contract of the addition (C11_fb_mul_rel, C11_fb_div_rel, C11_fb_div_rem_euclid_exact, "
+              "C11_exp_series_step_is_trace_step); (d) argument reduction and recombination: exp x' = B^q exp r0 exp(q (L - ln B)) for "
+              "the COMPUTED logarithm L, and the working value of the last powering equals exp x * B^-q * Theta with "
+              "Theta = exp((x'-x) - q(L - ln B) + (r - r0)) ths^N thp as an identity (the power of B is exact); (e) final: "
+              "C11_exp_nearest_1ulp_partial - if Theta is within d of 1 and 2 d B^p <= 1 the rounded, shifted result is within one ulp "
+              "of exp x (nearest modes). (5) The as-is models refine the entry logic (unlimited precision panics - powi iff the "
+              "exponent is negative -, domain panics, Exact shortcuts return the true value) and flag nothing Exact outside the "
+              "shortcuts (exp / ln: never; powf: only 1^y = 1), for every f32 estimate layer. (6) Termination: FBig::sub_ulp is positive "
+              "and at least |sum| B^-(2P+2) for every digit estimate; rounded series loops stop within series_fuel B P iterations. "
+              "(7) Open finding in the directed modes: soundness of the as-is accuracy check (< 2 ulps) and four machine-checked "
+              "refutations. Every implementation answer of the run is decided by the extracted checker AND compared bit for bit with "
+              "the extracted as-is model.")
+LEVEL_NOTE = ("PARTIAL. THEOREM REGION (about the as-is model, all inputs): powi - nearest modes HalfEven/HalfAway, every base >= 2, every "
+              "precision p >= 1, every integer exponent, operands of at most 2p digits (every FBig operand), EXCEPT base 2 at p = 1 with "
+              "a negative exponent; Exact flag of powi - every mode, operand at most twice the working precision. NOT a theorem: powi "
+              "in base 2 at one bit with a negative exponent, operands longer than 2p digits, the directed modes (decided per "
+"instance; longer than twice the working precision = open finding powi_overlong_operand, root cause C03 F08). For exp the "
+              "layers (guard digits vs powering digits, series error, instances of multiplication / division / Euclidean division, "
+              "reduction and recombination identities, last rounding) are theorems, but the unconditional one-ulp statement for "
+              "ElemAsis.exp_internal is NOT proved: C11_exp_nearest_1ulp_partial leaves exactly (i) the rounding contract of the FBig "
+              "addition for the sums of the loop (C03 proves it for operands of at most P digits and bounds the result by P+1 digits "
+              "only; that same-sign sums return at most P digits is missing), (ii) the error of ln_base at the working precision "
+              "(atanh / iacoth loops), (iii) the inequality between the number of series terms and the heuristic part of the guard "
+              "digits (needs a lower bound on the abstract f32 estimate layer). exp_m1 (unscaled branch, alternating series), ln, "
+              "ln_1p, powf: modelled faithfully and compared bit for bit, accuracy decided per generated instance by the certified "
+              "checker (every (function, mode, base, precision) outside the powi region above). Undecided instances (results exactly "
+              "one ulp from an exactly representable x^y with fractional y) are counted and reported, never passed. In the directed "
+              "modes errors between 1 and 2 ulps are the open finding directed_faithful. The f32 estimate layer (libm log2f, IEEE single "
+              "arithmetic) is abstract in Coq (theorems hold for every instance) and instantiated in the OCaml driver (std feature "
+              "variant; a wrong instance can only lower the fidelity statistic, never change a verdict). Trusted: Coq kernel, "
+              "CoqInterval/Flocq/Coquelicot, extraction (+FastZ.v, + one stub for sig_forall_dec), zarith, harness.")
 TECHNIQUE = ("Coq proof (certified interval checker on CoqInterval; value-level as-is models with regenerated guard-digit formulas; "
-             "error analysis of powi; termination of rounded series loops) + per-instance decision of every implementation answer + "
-             "bit-for-bit correspondence of the as-is models")
+             "error analysis of powi for every base and precision >= 2; layered error analysis of exp: guard digits vs powering digits, "
+             "rounded Maclaurin loop against the series definition of exp, exact reduction / recombination identities, last rounding; "
+             "termination of rounded series loops) + per-instance decision of every implementation answer + bit-for-bit "
+             "correspondence of the as-is models")
 RULE = ("cases = op {exp, exp_m1, ln, ln_1p, powi, powf; Context and FBig forms} x base {2,3,10,16,36} x six modes x precision "
-        "{1,2,3,4,5,7,10,16,17,20,33,53,64,100,200,300 (1000, 3000 thorough)} x argument classes: zero, tiny (B^-1000 .. B^-(p+2)), "
+        "{1,2,3,4,5,7,10,16,17,20,33,53,64,100,200,300 (1000, 3000 thorough); exp also 2048, 2049, 2100, 4095 in bases 2, 3 = the steps of "
+        "the powering count n = 2^(bit_len p / 2), finding exp_pow_guard_sqrt (8192 in bases 10, 16: thorough)} x argument classes: zero, tiny (B^-1000 .. B^-(p+2)), "
         "next to 0 (|x| ~ B^-(p-1..p+1)), next to 1 (1 +- B^-j, j = 1..2p, for ln/powi/powf bases; -1 + B^-j for ln_1p), moderate, "
         "powers of two +- 1 (ln scaling), huge (B^1000, exponents to 10^6, exp arguments up to the exponent-overflow limit), "
         "significands of 1, p-1, p, 2p digits; integer exponents {0, 1, 2, 3, small, 2^k +- 1, 10^3..10^9} of both signs and "
         "exponents of 40..200 bits (random, 2^k, 2^k +- 1) on arguments 1 +- r B^-j (sparse and dense r) with |n ln x| in 2^-12..2^38; "
+        "powi operands of 2 wp - 1, 2 wp, 2 wp + 1, 2 wp + 3 digits (wp = working precision of the powering; class powi_overlong_operand); "
         "powf exponents {0, 1, integers, 1/2-like, negative, tiny, large}; outside the domain: ln x<=0, ln_1p x<=-1, negative powf "
         "base, precision 0, infinite operands. non-trivial = the series/powering code ran (entry model says ECompute) or the operand "
         "was rounded; counted by the oracle over distinct case texts. asis = the extracted as-is model returned the same significand, "
@@ -108,13 +141,16 @@ EXPLANATION = ("Verdict per case: the extracted Coq checker (ElemEncl.check_*) e
                "result flagged Exact); it rejects only if it proves |t| < B^(E+1) and |r - t| >= B^(E-p+1). Anything else is "
                "retried at higher precision and finally reported as undecided. Panics and Exact shortcuts are predicted by the "
                "entry-logic model ElemEntry.*_entry; every computed answer is also compared with the extracted value-level as-is model "
-               "ElemAsis.{powi_asis, exp_internal, ln_internal, powf_asis} (model fidelity, must be 100 %).")
+               "ElemAsis.{powi_asis, exp_internal, ln_internal, powf_asis} (model fidelity, must be 100 %). A rejected answer is "
+               "reported as a known finding only in two listed classes: directed modes with the as-is accuracy (< 2 ulps) certified "
+               "by the loose checker, and powi with an operand longer than twice the working precision (ElemAsis.powi_overlong) "
+               "when the answer equals the prediction of the as-is model bit for bit.")
 TRUSTED_BASE = [
     "Coq 8.16.1 kernel; axioms: the four standard-library axioms of the classical real numbers (ClassicalDedekindReals.sig_forall_dec, sig_not_dec, functional_extensionality_dep, Classical_Prop.classic) as used by CoqInterval/Coquelicot/Flocq",
     "libraries: Coq stdlib Reals, Flocq, Coquelicot, CoqInterval (Float.Specific_stdz, Interval.Float_full: I.exp_correct, I.ln_correct, I.power_int_correct, I.mul/div/add/sub_correct)",
     "extraction: ExtrOcamlBasic + ExtrOcamlZBigInt + coq/extract/FastZ.v directives + `Extract Constant ClassicalDedekindReals.sig_forall_dec => (fun _ -> assert false)` in coq/extract/Extract_c11.v (never called by the Z-only enclosure code); zarith 1.12",
     "oracle/driver_c11.ml chooses working precisions and Newton schedules only, and instantiates the abstract f32 operations of Float/ElemF32.v with IEEE single arithmetic (double operations rounded to single; log2 = double log2 rounded to single, which differs from libm's log2f by one ulp on about 1300 of the 2^24 integer arguments): used by the fidelity comparison only; harness/src/bin/c11.rs and hlib (values moved through raw words)",
-    "tools/translate_c11_r3.py: reads the guard-digit / working-precision formulas of float/src/exp.rs, float/src/log.rs and the `type Reverse` table of float/src/round.rs into coq/gen/ElemParams.v at plug-in import (typed expression grammar: + - * / << as, .log2_est() .bit_len() .max(); reading of `x as usize` as f_to_usize, `.log2_est()` of an unsigned primitive as f32::log2 of the converted value)",
+    "tools/translate_c11_r3.py: reads the guard-digit / working-precision formulas of float/src/exp.rs, float/src/log.rs and the `type Reverse` table of float/src/round.rs into coq/gen/ElemParams.v at plug-in import (typed expression grammar: + - * / << as, .log2_est() .bit_len() .max(); reading of `x as usize` as f_to_usize, `.log2_est()` of an unsigned primitive as f32::log2 of the converted value; the `n` in pow_guard_digits is inlined as the regenerated exp_n_gen)",
     "IBig arithmetic below the float layer behaves as Z (C01, C02); the float layer as modelled for C03 (repr_round, mul, sqr, repr_div, the four addition bodies); comparisons of floats as order of values (C05)",
 ]
 ASSUMPTIONS = [
@@ -189,6 +225,16 @@ def gen_x_generic(rng, tier, b, p):
 
 def gen_exp(rng, tier, b, p):
     op = rng.choice(["exp", "exp", "exp_m1", "exp_m1", "fexp", "fexp_m1"])
+    if rng.chance(1, 140):
+        # finding F06: the n = 2^(bit_len(p)/2) digits of the final powering against the guard digits: precisions at
+        # the steps of n (bit_len 12: 2048; bases 10/16 need 8192 digits - thorough tier only, the checker takes minutes)
+        b, p = rng.choice([(2, 2048), (2, 2049), (2, 2100), (3, 2048), (2, 4095)])
+        if tier == "thorough" and rng.chance(1, 6):
+            b, p = rng.choice([(10, 8192), (16, 8192), (2, 8192), (3, 8192)])
+        d = rng.choice([1, 2, 5, 20])
+        s = gen_sig(rng, b, d)
+        e = -d + rng.choice([-2, -1, 0, 1, 2])
+        return "%s %x %s %x %s %s" % (op, b, rng.choice(MODES), p, hx(rng.choice([1, -1]) * s), hx(e))
     s, e = gen_x_generic(rng, tier, b, p)
     # keep the result exponent within isize: |x| < 2^61 * ln B; quick tier mostly far below
     lim = 60 if rng.chance(1, 30) else (18 if rng.chance(1, 4) else 9)
@@ -302,6 +348,18 @@ def gen_powi(rng, tier, b, p):
         e = -d + rng.choice([-20, -3, -1, 0, 0, 1, 1, 2, 30])
     if rng.chance(1, 2):
         s = -s
+    if rng.chance(1, 12):
+        # open finding F07 (powi_overlong_operand): operands around twice the working precision p + bit_len n + bit_len p
+        # (-1 / 0 / +1 / +3 digits), trailing digits that make the pre-rounding of Context::sqr / mul inexact, or zeros
+        n = rng.choice([2, 2, 3, 4, 5, 8, 17, 100])
+        p2 = min(p, 20)
+        wp = p2 + n.bit_length() + p2.bit_length()
+        if rng.chance(1, 4):
+            n, wp = -n, (p2 + 2 * p2.bit_length()) + n.bit_length() + (p2 + 2 * p2.bit_length()).bit_length()
+        d = 2 * wp + rng.choice([-1, 0, 1, 1, 1, 3])
+        lead = rng.choice([1, 1, b - 1, rng.range(1, b - 1)])
+        s = lead * b ** (d - 1) + rng.choice([1, 1, b // 2, rng.below(b ** min(d - 1, 3))])
+        return "powi %x %s %x %s %s %s" % (b, rng.choice(MODES), p2, hx(rng.choice([1, -1]) * s), hx(-rng.choice([0, d - 1, d])), hx(n))
     n = rng.choice([0, 1, 2, 2, 3, 3, 4, 5, 7, 8, 15, 16, 17, 31, 33, 63, 64, 65, 100, 127, 1000, 1023, 1025,
                     rng.range(2, 300), 10 ** 4 + rng.below(100), 10 ** 6 + 1, 2 ** 20 - 1, 10 ** 9 + 7, 2 ** 31 + 1])
     if rng.chance(1, 3):
